@@ -64,12 +64,12 @@ theorem rtOK_of_fields (p q : Packet) (n : Nat) (reads : List Int) (pseq : Nat) 
     (h1 : q.version = p.version) (h2 : q.src = p.src) (h3 : q.seq = p.seq) (h4 : q.offset = p.offset)
     (h5 : q.shape = p.shape.map (·.filter (· > 0))) (h6 : q.data.vals = p.data.vals)
     (h7 : p.data.len = 0 ∨ q.data.kind = p.data.kind) (h8 : tsCounter q = tsCounter p) :
-    rtOK p n (observe q n reads pseq pn) = true := by
+    rtOK (summarize p) n (observe q n reads pseq pn) = true := by
   have hci : ∃ k, channelInfo q = .ok (k, (p.offset : Int)) := by
     unfold channelInfo; rw [h4]; cases q.shape <;> exact ⟨_, rfl⟩
   obtain ⟨k, hk⟩ := hci
   have oci : (observe q n reads pseq pn).ci = .ok (k, (p.offset : Int)) := hk
-  simp only [rtOK, rtClauses, List.all_cons, List.all_nil, Bool.and_true, Bool.and_eq_true, oci]
+  simp only [rtOK, rtClauses, summarize, List.all_cons, List.all_nil, Bool.and_true, Bool.and_eq_true, oci]
   refine ⟨?_, ?_, ?_, ?_, ?_, ?_, ?_, ?_⟩
   · simp [observe, h1]
   · simp [observe, h2]
@@ -86,7 +86,7 @@ theorem rtOK_of_fields (p q : Packet) (n : Nat) (reads : List Int) (pseq : Nat) 
 are padding on the wire and are dropped). -/
 theorem C15_roundtrip (p : Packet) (hb : Built p) (hwf : WF p) :
     ∃ bs q, encode p = .ok bs ∧ decodeC bs = (.ok q, bs.length) ∧
-      ∀ reads pseq pn, rtOK p bs.length (observe q bs.length reads pseq pn) = true := by
+      ∀ reads pseq pn, rtOK (summarize p) bs.length (observe q bs.length reads pseq pn) = true := by
   obtain ⟨bs, q, he, hd, h1, h2, h3, h4, h5, h6, h7, h8⟩ := roundtrip_good p (built_good p hb) hwf
   exact ⟨bs, q, he, hd, fun reads pseq pn => rtOK_of_fields p q _ reads pseq pn h1 h2 h3 h4 h5 h6 h7 h8⟩
 
